@@ -242,7 +242,6 @@ fn run_case(rec: &mut Recorder, sched: &Schedule, o: &Opts) {
 fn guarded(rec: &mut Recorder, sched: &Schedule, o: &Opts, case: usize) {
     match vh::catch(std::panic::AssertUnwindSafe(|| run_case(rec, sched, o))) {
         Ok(()) => {}
-        Err(p) if is_f1_panic(&p) => rec.notes.push(format!("case {case}: known F1-family assert: {p}")),
         Err(p) => rec.panics.push(format!("case {case}: {p}")),
     }
 }
